@@ -70,6 +70,7 @@ def build(lexmod, parmod):
                             rec2['semi'] = semi
                             lx.fields['auto_semi'] = PExt('auto_semi', lambda e, a, k: semi if self.a == 'semicolon' else None)
                             lx.fields['cur_token'] = Tok(self.c).make('cur')
+                            lx.fields['cur_token'].fields['value'] = {'DIV': '/', 'DIVEQUAL': '/=', 'ID': 'a'}[self.c]
                             lx.fields['valid_prev_token'] = Tok(self.p).make('prev') if self.p else None
                             rt = Tok(self.r).make('relexed')
                             rec2['relexed'] = rt
@@ -85,11 +86,11 @@ def build(lexmod, parmod):
                             ply.fields['errok'] = PExt('errok', errok)
                             o.fields.update(lexer=lx, parser=ply)
                             return o
-                    relexes = auto == 'none' and cur == 'DIV' and prev in ('RBRACE', 'PLUSPLUS', 'MINUSMINUS') and relex == 'REGEX'
+                    relexes = auto == 'none' and cur in ('DIV', 'DIVEQUAL') and prev in ('RBRACE', 'PLUSPLUS', 'MINUSMINUS') and relex == 'REGEX'
                     if auto == 'semicolon':
                         ens, raises = ['result is semi()', 'errok_calls() == 1'], {}
                     elif relexes:
-                        ens, raises = ['result is relexed()', 'errok_calls() == 1', 'backtracked() == 1'], {}
+                        ens, raises = ['result is relexed()', 'errok_calls() == 1', 'backtracked() == %d' % len({'DIV': '/', 'DIVEQUAL': '/='}[cur])], {}
                     else:
                         ens, raises = ['False'], {'ECMASyntaxError': 'errok_calls() == 0'}
                     cs.append(Contract(
